@@ -154,6 +154,7 @@ type FrontResult struct {
 	Blocks    []FrontBlock   `json:"blocks"`
 	Groups    [][]jComment   `json:"groups"`
 	MarkersSane bool         `json:"markersSane"`
+	DistinctFields bool      `json:"distinctFields"`
 	Metas     []FuncMeta     `json:"metas"`
 }
 
